@@ -18,15 +18,21 @@ SIM_SCENARIO(scen_c17, "c17", "C17", 3000000, 20000) {
     ShadowHeap heap;
     int nthreads = (int)sim::draw_range(1, 4, "threads");
     bool exiting = sim::draw_bool("thread_exit_with_live_blocks");
-    d.add(hx::fmt("tbbmalloc threads=%d orphan=%d", nthreads, (int)exiting));
+    // theme "large objects" (1 run in 4): a handful of large sizes from different 8 KB-wide cache bins, allocated and freed in
+    // mixed order, so that the thread-local large-object cache is flushed (cleanup command, thread exit, overflow) with
+    // lists that interleave several bins, and the sizes are allocated again afterwards
+    bool large_theme = sim::draw(4, "large_theme") == 0;
+    d.add(hx::fmt("tbbmalloc threads=%d orphan=%d%s", nthreads, (int)exiting, large_theme ? " theme=large-objects" : ""));
     std::vector<std::vector<Plan>> plan(nthreads);
     for (int t = 0; t < nthreads; ++t) {
-        int nops = (int)sim::draw_range(2, 16, "nops");
+        int nops = large_theme ? (int)sim::draw_range(8, 30, "nops") : (int)sim::draw_range(2, 16, "nops");
         std::string s = hx::fmt("T%d:", t);
         for (int i = 0; i < nops; ++i) {
             static const OK mix[] = {MALLOC, MALLOC, MALLOC, CALLOC, REALLOC, ALIGNED, ALIGNED_REALLOC, MEMALIGN, FREE, FREE, FREE_FOREIGN, FREE_FOREIGN, MSIZE, CLEAN};
             Plan p; p.k = mix[sim::draw(14, "op")];
+            if (large_theme) { static const OK lmix[] = {MALLOC, MALLOC, MALLOC, MALLOC, FREE, FREE, FREE, FREE, FREE, CLEAN, CLEAN, FREE_FOREIGN, REALLOC, MSIZE}; p.k = lmix[sim::draw(14, "lop")]; }
             p.size = hx::draw_alloc_size(); p.align = (size_t)1 << sim::draw_range(0, sim::draw(8, "bigalign") ? 12 : 20, "align_log2"); p.pick = (int)sim::draw(64, "pick");
+            if (large_theme) { static const size_t ls[] = {9000, 17500, 26000, 34500, 43000, 51500, 60000}; p.size = ls[sim::draw(7, "lsize")] + (size_t)sim::draw(200, "ladd"); }
             plan[t].push_back(p);
             s += (p.k == FREE || p.k == FREE_FOREIGN || p.k == MSIZE || p.k == CLEAN) ? hx::fmt(" %s", kOp[p.k]) : hx::fmt(" %s(%zu,a%zu)", kOp[p.k], p.size, p.align);
         }
